@@ -42,6 +42,7 @@ type valD struct {
 	LTER   bool   `json:"lter,omitempty"`   // a late handler: mutate the Response returned by ctx.LastTimeoutErrorResponse() instead
 	Hijack bool   `json:"hijack,omitempty"` // also call ctx.Hijack (on a timed-out ctx this must have no effect)
 	THdr   bool   `json:"thdr,omitempty"`   // a timeout response passed to TimeoutErrorWithResponse: carries the header X-T
+	TStream int   `json:"tstream,omitempty"` // a timeout response passed to TimeoutErrorWithResponse whose body is a stream: 1 = size -1, 2 = exact size, 3 = declared 3 bytes more than it yields
 }
 
 type evD struct {
@@ -90,7 +91,16 @@ type future struct {
 	res  result
 }
 
+// countingStream is a body stream that counts its Close calls
+type countingStream struct {
+	io.Reader
+	closes *int32
+}
+
+func (c countingStream) Close() error { atomic.AddInt32(c.closes, 1); return nil }
+
 type result struct {
+	badCloses int // timeout-response body streams not closed exactly once
 	wires  [][][]byte // per connection, per request
 	smsgs  [][]string
 	maxrun int
@@ -172,6 +182,7 @@ func runScenario(d desc) (res result) {
 	tcode := d.TCode
 	effCap := effectiveCap(d)
 	var running, maxrun int32
+	var streamCloses []*int32
 	gates := map[int]chan struct{}{}
 	dones := map[int]chan struct{}{}
 	lateWrites := map[int][]valD{}
@@ -217,6 +228,13 @@ func runScenario(d desc) (res result) {
 				var r fasthttp.Response
 				r.SetStatusCode(tv.Status)
 				r.SetBody(tv.Body)
+				if tv.TStream > 0 {
+					// since /repo adfc8c4 the stream is read into the copy (and closed); before, the body was dropped
+					n := new(int32)
+					streamCloses = append(streamCloses, n)
+					size := map[int]int{1: -1, 2: len(tv.Body), 3: len(tv.Body) + 3}[tv.TStream]
+					r.SetBodyStream(countingStream{strings.NewReader(string(tv.Body)), n}, size)
+				}
 				if tv.THdr {
 					r.Header.Set("X-T", "1")
 				}
@@ -389,6 +407,13 @@ func runScenario(d desc) (res result) {
 		c.Close()
 	}
 	res.maxrun = int(atomic.LoadInt32(&maxrun))
+	mu.Lock()
+	for _, n := range streamCloses {
+		if atomic.LoadInt32(n) != 1 {
+			res.badCloses++
+		}
+	}
+	mu.Unlock()
 	return res
 }
 
@@ -418,8 +443,17 @@ func valCoq(v valD) string {
 // the timeout response handed to TimeoutError*: built on a zero Response
 func tvalCoq(v valD, withHdr bool) string {
 	ops := []string{"(HHdr " + hlib.App("ROSetStatusCode", hlib.Z(int64(v.Status))) + ")", hlib.App("HSetBody", pk.Hex(v.Body))}
+	if v.TStream > 0 && withHdr {
+		// SetBodyStream(r, size) = ResetBody + Header.SetContentLength(size); TimeoutErrorWithResponse copies the header
+		// and then SetBody(everything the stream yields)
+		size := map[int]int{1: -1, 2: len(v.Body), 3: len(v.Body) + 3}[v.TStream]
+		ops = append(ops, "(HHdr "+hlib.App("ROSetContentLength", hlib.Z(int64(size)))+")")
+	}
 	if v.THdr && withHdr {
 		ops = append(ops, "(HHdr "+hlib.App("ROSet", pk.HexS("X-T"), pk.HexS("1"))+")")
+	}
+	if v.TStream > 0 && withHdr {
+		ops = append(ops, hlib.App("HSetBody", pk.Hex(v.Body)))
 	}
 	return hlib.List(ops)
 }
@@ -542,7 +576,7 @@ func run(d desc) hlib.Case {
 	cfg := hlib.App("mkCfg", pk.HexS(serverName(d.Cfg)), hlib.Bool(d.Cfg.NoDate), hlib.Bool(d.Cfg.NoCT), hlib.Bool(d.Cfg.NoNorm), "false")
 	semCap := effectiveCap(d) // since /repo 0e1d77b the semaphore is created by ServeConn as well as by Serve
 	coq := hlib.App("C16Trace", cfg, hlib.Nat(effectiveCap(d)), hlib.Nat(semCap), pk.HexS(fixedDate), pk.HexS(d.TMsg), hlib.Z(int64(tcode)),
-		hlib.List(events), hlib.List(trace), hlib.List(reqsC), hlib.List(wiresC), hlib.Nat(res.maxrun))
+		hlib.List(events), hlib.List(trace), hlib.List(reqsC), hlib.List(wiresC), hlib.Nat(res.maxrun), hlib.Nat(res.badCloses))
 	sig := d.Tag
 	for _, e := range d.Events {
 		sig += "," + e.Kind + e.RKind
@@ -599,7 +633,7 @@ func rval(r *rand.Rand) *valD {
 	return &valD{Status: hlib.Pick(r, []int{200, 200, 201, 404, 500, 204}), Body: hlib.Bytes(r, bodyAlpha, 16), Stream: r.Intn(6) == 0}
 }
 func rtval(r *rand.Rand) *valD {
-	return &valD{Status: hlib.Pick(r, []int{408, 408, 504, 503, 299}), Body: append([]byte("self-timeout "), hlib.Bytes(r, bodyAlpha, 8)...), THdr: r.Intn(3) == 0}
+	return &valD{Status: hlib.Pick(r, []int{408, 408, 504, 503, 299}), Body: append([]byte("self-timeout "), hlib.Bytes(r, bodyAlpha, 8)...), THdr: r.Intn(3) == 0, TStream: hlib.Pick(r, []int{0, 0, 1, 2, 3})}
 }
 func rlate(r *rand.Rand, id int) []valD {
 	n := 1 + r.Intn(3)
@@ -737,6 +771,16 @@ func corpus() []desc {
 		out = append(out, desc{Cap: 4, TMsg: "t/o", Tag: "conn-close", Events: []evD{{Kind: "open"},
 			{Kind: "req", Conn: 0, RKind: "self", Method: m, Val: &valD{Status: 200, Body: hlib.B("x"), Late: true}, TVal: &valD{Status: 504, Body: hlib.B("bye")}, TVr: 1, Close: true}}})
 	}
+	// a timeout page that is a body stream (unknown, exact, too large declared size): delivered in full, stream closed once
+	for ts := 1; ts <= 3; ts++ {
+		for _, m := range []string{"GET", "HEAD"} {
+			out = append(out, desc{Cap: 4, TMsg: "t/o", Tag: "timeout-stream", Events: []evD{{Kind: "open"},
+				{Kind: "req", Conn: 0, RKind: "self", Method: m, Val: &valD{Status: 200, Body: hlib.B("x"), Late: true}, TVal: &valD{Status: 503, Body: hlib.B("timeout page streamed"), TStream: ts}, TVr: 1},
+				fast(0, "GET", "next")}})
+		}
+	}
+	out = append(out, desc{Cap: 4, TMsg: "t/o", Tag: "timeout-stream", Events: []evD{{Kind: "open"},
+		{Kind: "req", Conn: 0, RKind: "self", Method: "GET", Val: &valD{Status: 200, Body: hlib.B("x")}, TVal: &valD{Status: 503, Body: hlib.B(""), TStream: 1}, TVr: 1}, fast(0, "GET", "next")}})
 	// MaxRequestsPerConn counts the timed-out requests too (the serve loop's own counter, not the swapped ctx'), and
 	// ctx.ConnRequestNum() of later requests is right
 	out = append(out, desc{Cfg: cfgD{MaxReq: 4}, Cap: 4, TMsg: "t/o", Tag: "max-requests", Events: []evD{{Kind: "open"},
